@@ -109,6 +109,10 @@ type c02Scn struct {
 	// in which every thread is blocked is then judged by the statement's liveness clause instead of being a deadlock per
 	// se: a producer may stay blocked only if its request does NOT fit (accepted-but-unfinished size + its size > capacity).
 	FullOK bool `json:"full_ok,omitempty"`
+	// HoldUntil: every consumer keeps the request it was handed (does not finish it, does not come back for more) until this
+	// many requests have been handed over in total: an accepted request then reaches a consumer only if an IDLE consumer is
+	// woken for it ("every ... request whose enqueue succeeded is handed to a consumer")
+	HoldUntil int `json:"hold_until,omitempty"`
 }
 
 const (
@@ -208,6 +212,9 @@ func c02Body(sc *c02Scn, h *c02Hist) func() {
 			t := h.tick()
 			h.ops = append(h.ops, &c02Op{Kind: opRead, ID: r.ID, Call: h.lastRet[who], Ret: t, Who: who})
 			h.handed[r.ID]++
+			if sc.HoldUntil > 0 {
+				vs.Block(func() bool { return len(h.handed) >= sc.HoldUntil })
+			}
 			if sc.ConsumerPoint {
 				vs.Point()
 			}
@@ -307,6 +314,11 @@ func c02Body(sc *c02Scn, h *c02Hist) func() {
 			})
 		}
 		wg.Wait()
+		if sc.HoldUntil > 0 {
+			// "while the queue is running": the shutdown comes after the hand-overs the scenario is about (a consumer that is
+			// never woken leaves this thread, and the holding consumer, blocked: a deadlock verdict)
+			vs.Block(func() bool { return len(h.handed) >= sc.HoldUntil })
+		}
 		if sc.Shutdown == "end" {
 			h.shutdownCall = h.tick()
 			_ = q.Shutdown(bg)
@@ -588,6 +600,9 @@ func c02Scenarios(ctx *vr.Ctx) []*c02Scn {
 		// D4 sizes: zero, cap, cap+1 with an items-like sizer
 		l = append(l, &c02Scn{Name: "D4-" + kind, Kind: kind, Cap: 3, Consumers: 1, ConsumerPoint: true,
 			Producers: [][]c02Offer{{{ID: 1, Size: 0}, {ID: 2, Size: 3}}, {{ID: 3, Size: 4}, {ID: 4, Size: 2}}}, Observers: 1, Shutdown: "end"})
+		// D7: two idle consumers, two accepted requests, nobody comes back for more before both were handed over
+		l = append(l, &c02Scn{Name: "D7-" + kind, Kind: kind, Cap: 2, Consumers: 2, ConsumerPoint: true, HoldUntil: 2,
+			Producers: [][]c02Offer{{one(1), one(2)}}, Shutdown: "end"})
 		// D5 shutdown during traffic
 		l = append(l, &c02Scn{Name: "D5-" + kind, Kind: kind, Cap: 2, Consumers: 2, ConsumerPoint: true, Big: true,
 			Producers: [][]c02Offer{{one(1), one(2)}, {one(3)}}, Shutdown: "concurrent"})
